@@ -502,7 +502,7 @@ func (w *World) RunBlock(txs [][]byte, dt time.Duration) (*abci.ResponseFinalize
 	}
 	w.Evidence = nil
 	if w.Transcript != nil {
-		w.Transcript.Blocks = append(w.Transcript.Blocks, TranscriptBlock{Req: req})
+		w.Transcript.Blocks = append(w.Transcript.Blocks, TranscriptBlock{Req: req, Dirty: w.c17DirtyStores()})
 	}
 	var resp *abci.ResponseFinalizeBlock
 	halt := w.guard("FinalizeBlock", func() error {
@@ -555,4 +555,5 @@ type TranscriptBlock struct {
 	Req     *abci.RequestFinalizeBlock `json:"req"`
 	AppHash []byte                     `json:"app_hash"`
 	Resp    *abci.ResponseFinalizeBlock `json:"-"` // reference results of the recording run (C17)
+	Dirty   []string                    `json:"-"` // stores written outside a block before this one (harness leak, C17)
 }
